@@ -1089,8 +1089,13 @@ def uniform_partition_fromgrid(grid, min_pt=None, max_pt=None):
         min_pt = {i: None for i in range(grid.ndim)}
     elif not hasattr(min_pt, 'items'):  # array-like
         min_pt = np.atleast_1d(min_pt)
+        if len(min_pt) != grid.ndim:
+            raise ValueError('`min_pt` has length {}, expected {} (the number '
+                             'of axes of `grid`)'
+                             ''.format(len(min_pt), grid.ndim))
         min_pt = {i: float(v) for i, v in enumerate(min_pt)}
     else:
+        min_pt = dict(min_pt)  # do not modify the dictionary of the caller
         min_pt.update({i: None for i in range(grid.ndim)
                        if i not in min_pt and i - grid.ndim not in min_pt})
 
@@ -1098,8 +1103,13 @@ def uniform_partition_fromgrid(grid, min_pt=None, max_pt=None):
         max_pt = {i: None for i in range(grid.ndim)}
     elif not hasattr(max_pt, 'items'):
         max_pt = np.atleast_1d(max_pt)
+        if len(max_pt) != grid.ndim:
+            raise ValueError('`max_pt` has length {}, expected {} (the number '
+                             'of axes of `grid`)'
+                             ''.format(len(max_pt), grid.ndim))
         max_pt = {i: float(v) for i, v in enumerate(max_pt)}
     else:
+        max_pt = dict(max_pt)  # do not modify the dictionary of the caller
         max_pt.update({i: None for i in range(grid.ndim)
                       if i not in max_pt and i - grid.ndim not in max_pt})
 
